@@ -25,7 +25,7 @@ pub fn run_exec<S: StratExt<VA> + StratExt<VB>>(seed: u64, sseed: u64, exec_no: 
     let nops = rng.range(6, 14) as usize;
     let mut srng = Rng::new(sseed);
     let strat = match srng.below(3) {
-        0 => Strat::Random { sw: *srng.pick(&[2, 4, 8, 16]) },
+        0 => if srng.chance(1, 2) { Strat::Random { sw: *srng.pick(&[2, 4, 8, 16]) } } else { Strat::Windows { p_in: 12, p_out: 1 } },
         _ => Strat::Adversary { victim: 0, k: srng.range(1, 3) as u32, p: *srng.pick(&[4, 8, 16]) },
     };
     sched::token_prepare(3, sseed, strat.clone(), false);
